@@ -259,6 +259,36 @@ def audit_assumptions(pid):
     return thms, res, out
 
 
+# axioms of the standard library's classical real numbers (Flocq is built on them): allowed ONLY for the support
+# theorems of FloatExact.v, never for a property theorem
+REALS_AXIOMS = {"ClassicalDedekindReals.sig_not_dec", "ClassicalDedekindReals.sig_forall_dec",
+                "FunctionalExtensionality.functional_extensionality_dep", "Classical_Prop.classic"}
+
+
+def audit_support(module, allowed):
+    """Print Assumptions of every Theorem of a support file; returns (theorems, [(thm, axiom outside `allowed`)], log)"""
+    thms = theorems_of(f"{module}.v")
+    BUILD.mkdir(exist_ok=True)
+    f = BUILD / f"Audit_{module}.v"
+    body = [f"From IoosQc Require Import {module}."]
+    for t in thms:
+        body.append(f'Goal True. idtac "@@THM {t}". exact I. Qed.')
+        body.append(f"Print Assumptions {t}.")
+    f.write_text("\n".join(body) + "\n")
+    rc, out = sh(f"timeout 300 coqc -Q {THEORIES} IoosQc {f.name}", cwd=BUILD)
+    if rc != 0:
+        return thms, None, out
+    bad, cur = [], None
+    for line in out.splitlines():
+        if line.startswith("@@THM "):
+            cur = line.split()[1]
+        elif cur and not line.startswith("Axioms:") and not line.startswith("Closed under"):
+            m = re.match(r"^([A-Za-z0-9_.']+)\s*:", line)
+            if m and m.group(1) not in allowed:
+                bad.append((cur, m.group(1)))
+    return thms, bad, out
+
+
 def coqchk(pid):
     """independent re-check of Props_<pid>.vo and everything it depends on; returns (ok, summary dict)"""
     rc, out = sh(f"timeout 1500 coqchk -silent -o -Q theories IoosQc IoosQc.Props_{pid}", cwd=COQ, timeout=1600)
